@@ -107,6 +107,8 @@ def pow_stream(ctx, n):
         else:
             t = TM.of(rand_matrix(rng, dim + 1))
         e = rng.randint(-3, 5)
+        if k % 12 == 7 and t.nfree == 0 and dim == 2:
+            e = rng.choice([9, 10, -9])            # beyond any small-exponent special casing (one einsum with |e| operands)
         cases.append((t, e))
     answers = run_driver([f"pow {t.enc()} {e}" for t, e in cases] + [f"inverse {t.enc()}" for t, e in cases])
     nc = len(cases)
@@ -161,6 +163,9 @@ def correspondence(ctx):
     apply_stream(ctx, ctx.budget(500, 8000))
     pow_stream(ctx, ctx.budget(200, 3000))
     chain_stream(ctx, ctx.budget(150, 2000))
+    # collections of transformations against collections of objects (all shape patterns, incl. different numbers of axes)
+    import colllib
+    colllib.run(ctx, ctx.budget(250, 3000), prefix="C06", only={"t*point", "t*line", "t*plane", "t*line3", "t*conic", "t*t"})
 
 
 def replay(ctx, rec):
